@@ -726,7 +726,8 @@ func (c *vCase) opAdd(local bool, txs []*types.Transaction) {
 				if v.tx.GasPrice().Cmp(th) < 0 || v.tx.GasPrice().Cmp(old.tx.GasPrice()) <= 0 {
 					detail := fmt.Sprintf("acct=%d nonce=%d old_price=%s new_price=%s bump=%s accepted", v.from, v.tx.Nonce(), old.tx.GasPrice(), v.tx.GasPrice(), bump)
 					full := uint64(pre.slots+numSlots(v.tx)) > c.pool.config.GlobalSlots+c.pool.config.GlobalQueue
-					if full && !pre.all[old.id] && v.tx.GasPrice().Cmp(old.tx.GasPrice()) > 0 {
+					// (a local add forces the eviction whatever its price: Discard(..., force=true))
+					if full && !pre.all[old.id] && (v.tx.GasPrice().Cmp(old.tx.GasPrice()) > 0 || (local && !c.pool.config.NoLocals)) {
 						// the old tx was evicted as (one of) the cheapest remote(s) by the pool-full branch
 						o.Fail(c.step, "replace-bypass-eviction", "old_remote_cheapest pool_full "+detail)
 					} else {
